@@ -172,6 +172,19 @@ func (u *Unit) builtinModel(st *State, call *ast.CallExpr, fn *types.Func, key s
 				if T := u.typeOf(call.Args[1]); T != nil {
 					if p, ok := T.Underlying().(*types.Pointer); ok && isStructVal(p.Elem()) {
 						u.havocStruct(st, p.Elem(), u.ifaceTarget(args[1]))
+					} else if pp, ok2 := pointerToStructPointer(T); ok && ok2 {
+						// json.Unmarshal(data, &p) with p a *Struct: the decoder may leave p alone (filling the struct it
+						// points to), point it to a new struct, or - for the JSON value null - set it to nil
+						cur := u.loadAt(st, "P$"+typeKey(p.Elem()), p.Elem(), args[1].S)
+						if cur.S != "" {
+							u.havocStruct(st, pp, cur.S)
+						}
+						fresh := u.alloc(st, "unmarshal.new")
+						u.havocStruct(st, pp, fresh)
+						c1 := u.fresh("unmarshal.null", SBool)
+						c2 := u.fresh("unmarshal.keep", SBool)
+						nv := scalar(tIte(c1, "0", tIte(c2, cur.S, fresh)), SInt, p.Elem())
+						u.storeAt(st, "P$"+typeKey(p.Elem()), p.Elem(), args[1].S, nv)
 					} else {
 						u.note("abstracted", "json.Unmarshal into "+T.String()+" (target not havoc'd)")
 					}
@@ -183,6 +196,19 @@ func (u *Unit) builtinModel(st *State, call *ast.CallExpr, fn *types.Func, key s
 		// the big/little endian accessors are given by contracts in specs/std.gocv
 	}
 	return Val{}, false
+}
+
+// pointerToStructPointer: T is **S for a struct type S; returns S.
+func pointerToStructPointer(T types.Type) (types.Type, bool) {
+	p, ok := T.Underlying().(*types.Pointer)
+	if !ok {
+		return nil, false
+	}
+	q, ok := p.Elem().Underlying().(*types.Pointer)
+	if !ok || !isStructVal(q.Elem()) {
+		return nil, false
+	}
+	return q.Elem(), true
 }
 
 // ---- atomics ----
